@@ -32,6 +32,8 @@ tail -5 "$S/demo_mut.log" | cut -c1-200
 rm "$PKGDIR/zz_mutant_demo_test.go"
 echo "== baseline suite with mutant"
 VERIF_REPO="$S/repo" /verif/tools/baseline_off.sh; RC_BASE=$?
+echo "== BSI / roaring64 tests that the baseline never reaches (with mutant)"
+(go test -count=1 -vet=off ./BitSliceIndexing/ ./roaring64/ -skip 'ExistenceAuthority|TestLargeFile' > "$S/bsi.log" 2>&1) || { tail -15 "$S/bsi.log"; RC_BASE=9; }
 echo "demo_clean_rc=$RC_CLEAN demo_mutant_rc=$RC_MUT baseline_rc=$RC_BASE"
 if [ $RC_CLEAN -ne 0 ] || [ $RC_MUT -eq 0 ] || [ $RC_BASE -ne 0 ]; then echo "MUTANT REJECTED"; exit 4; fi
 D=/verif/seeded/$NAME; mkdir -p "$D"
